@@ -6,15 +6,48 @@
 (* FALSE) or per behaviour (PathMode TRUE).                                 *)
 EXTENDS ClientCompose, Json
 
-CONSTANTS Mode, MaxOps, PathMode
+CONSTANTS Mode, MaxOps, PathMode,
+          MsConfs,    \* mode "multi": the MsScripts a run may start from
+          XConfs,     \* mode "dgst": the XScripts a run may start from
+          OpNames,    \* the environment steps used (all of them, or a loss scenario)
+          TcOnly      \* mode "dgst": the only datagram ever delivered is the truncated answer
 VARIABLES st, hist
 cvars == <<st, hist>>
 
 \* the datagram module's own variables are not used here
-DFrozen == /\ ndg = 0 /\ ph = "idle" /\ att = 0 /\ e = 0 /\ inq = <<>> /\ q = 0
-           /\ fault = [kind |-> "none", at |-> 0] /\ sent = <<>> /\ done = <<>>
-           /\ waited = 0
 NoFault == [kind |-> "none", at |-> 0]
+DFrozen == /\ ndg = 0 /\ ph = "idle" /\ att = 0 /\ e = 0 /\ inq = <<>> /\ q = 0
+           /\ fault = NoFault /\ sent = <<>> /\ done = <<>>
+           /\ waited = 0 /\ conf = DConfOf(DgScript("new", <<>>))
+
+\* configuration scripts.  The stream connections under multi_stream have
+\* their own timers beyond the horizon of a case.
+AllOps == {"submit", "deliver", "tick", "conn_ok", "conn_fail", "reply", "wrong", "close"}
+LossOps == {"submit", "deliver", "tick", "conn_ok"}
+QuietSt == StScript("new", <<Call("set_response_timeout", 595000), Call("set_idle_timeout", 3600000)>>)
+MsS(route, rt) == MsScript(route, QuietSt, <<Call("set_response_timeout", rt)>>)
+DgS(rt, mr)    == DgScript("new", <<Call("set_read_timeout", rt), Call("set_max_retries", mr)>>)
+\* multi_stream (one tick = 100 s)
+GMsConfs  == {MsS("from", 300000)}
+GMsConfsT == {MsS("from", 300000), MsS("default", 200000)}
+\* every request is left without an answer: the response timeout at, inside
+\* and beyond the ends of its range, set twice, never set, by every route
+GMsLoss   == {MsS(r, rt) : r \in {"from", "default"},
+                           rt \in {0, 1, 100000, 100001, 500000, 599999, 600000, 600001, 3600000}}
+             \cup {MsScript(r, QuietSt, <<>>) : r \in {"from", "default"}}
+             \cup {MsScript("conn_new", StScript("new", <<>>), <<>>)}
+             \cup {MsScript("from", QuietSt, <<Call("set_response_timeout", 700000),
+                                              Call("set_response_timeout", 200000)>>)}
+\* dgram_stream (one tick = 10 s)
+GXConfs   == {XScript("from_parts", DgS(10000, 1), MsS("from", 20000)),
+              XScript("new_mut", DgS(10000, 0), MsS("default", 10000))}
+GXConfsT  == GXConfs \cup {XScript("new_set", DgS(20000, 1), MsS("from", 30000))}
+GXLoss    == {XScript(r, DgS(rd, mr), MsS(mroute, rt)) :
+                 r \in {"from_parts", "new_mut", "new_set"}, rd \in {10000, 60001}, mr \in {0, 1},
+                 mroute \in {"from"}, rt \in {1, 20000}}
+             \cup {XScript(r, DgScript("new", <<>>), MsScript("default", StScript("new", <<>>), <<>>)) :
+                    r \in {"from_parts", "new_mut", "new_set", "conn_new"}}
+             \cup {XScript("new_mut", DgS(10000, mr), MsS("default", 20000)) : mr \in {2, 3}}
 
 XMkOp(op, r, qq, c, d) == [op |-> op, r |-> r, q |-> qq, c |-> c, d |-> d]
 Lift(o) == XMkOp(o.op, o.r, o.q, o.c, NoDgram)
@@ -23,6 +56,7 @@ Lift(o) == XMkOp(o.op, o.r, o.q, o.c, NoDgram)
 \* 2, NXDOMAIN 3, REFUSED 5 with the question; a header-only error), each
 \* with and without TC; a truncated answer with another ID; garbage
 XDgrams(x) ==
+  IF TcOnly THEN {[kind |-> "msg", f |-> Msg(x.d.att, TRUE, x.d.q, 0, TRUE, TRUE, -1)]} ELSE
        {[kind |-> "msg", f |-> Msg(x.d.att, TRUE, x.d.q, rc, rc = 0, tc, -1)] :
            rc \in {0, 2, 3, 5}, tc \in BOOLEAN}
   \cup {[kind |-> "msg", f |-> Msg(x.d.att, TRUE, NoQ, 2, FALSE, tc, -1)] : tc \in BOOLEAN}
@@ -49,16 +83,19 @@ MDone(m) == [r \in MReqs |-> [k \in 1..Len(m.done[r]) |->
 RECURSIVE SeqOf(_, _)
 SeqOf(f, n) == IF n = 0 THEN <<>> ELSE Append(SeqOf(f, n - 1), f[n])
 
+\* eff: what the getters of the configuration object say
 MProj(m) == [nconnect |-> m.nconnect, written |-> Written(m.conns, MReqs),
-             done |-> [r \in MReqs |-> SeqOf(MDone(m)[r], Len(m.done[r]))]]
-XProj(x) == [udp |-> x.d.sent, nconnect |-> x.m.nconnect,
+             done |-> [r \in MReqs |-> SeqOf(MDone(m)[r], Len(m.done[r]))],
+             eff |-> m.conf.eff]
+XProj(x) == [udp |-> x.d.sent, nconnect |-> x.m.nconnect, eff |-> x.conf.eff,
              written |-> Written(x.m.conns, {1}),
              done |-> SeqOf([k \in 1..Len(x.done) |->
                                [ok |-> x.done[k].ok, via |-> x.done[k].via,
                                 tc |-> x.done[k].tc, rcode |-> x.done[k].rcode,
                                 t |-> x.done[k].t]], Len(x.done))]
 
-Ops  == IF Mode = "multi" THEN {Lift(o) : o \in MOpsOf(st)} ELSE XOpsOf(st)
+Ops  == {o \in (IF Mode = "multi" THEN {Lift(o) : o \in MOpsOf(st)} ELSE XOpsOf(st)) :
+           o.op \in OpNames}
 App(o) == IF Mode = "multi" THEN MApply(st, MMkOp(o.op, o.r, o.q, o.c)) ELSE XApply(st, o)
 Proj(s) == IF Mode = "multi" THEN MProj(s) ELSE XProj(s)
 
@@ -69,7 +106,8 @@ OpJson(o) == CASE o.op = "submit"  -> [op |-> "submit", r |-> o.r, q |-> o.q]
                [] OTHER            -> [op |-> o.op]
 
 CInit == /\ DFrozen /\ hist = <<>>
-         /\ st = IF Mode = "multi" THEN MInitState ELSE XInitState(NoFault)
+         /\ st \in IF Mode = "multi" THEN {MInitOf(sc) : sc \in MsConfs}
+                   ELSE {XInitState(NoFault, xsc) : xsc \in XConfs}
 CNext == /\ Len(hist) < MaxOps
          /\ UNCHANGED <<dvars, ndg>>
          /\ \E o \in Ops : LET t == App(o)
@@ -80,8 +118,7 @@ Finished(s) == IF Mode = "multi" THEN \A r \in MReqs : s.reqs[r].st = "done"
                ELSE s.ph = "done"
 
 CaseOf(h) == ToJson([in |-> [kind |-> Mode,
-                             cfg |-> [rt |-> MRT, rd |-> RD, retries |-> MaxRetries,
-                                      nreq |-> Cardinality(MReqs)],
+                             cfg |-> [conf |-> st.conf.sc, nreq |-> Cardinality(MReqs)],
                              ops |-> [i \in 1..Len(h) |-> OpJson(h[i].op)]],
                      exp |-> [i \in 1..Len(h) |-> h[i].proj]])
 Emit == IF PathMode
